@@ -219,7 +219,9 @@ impl Ctx {
             g.release = rel.clone();
         }
         // run the sends (concurrently when there are several)
-        let mut built: HashMap<u32, (AMsg, Vec<u8>, Cfg, String)> = HashMap::new();
+        // the record of each request is the projection of the very object handed to send() (whatever defaults the
+        // constructors put into it is C10's business, not C11's)
+        let mut built: HashMap<u32, (J, Vec<u8>, Cfg, String)> = HashMap::new();
         let mut handles = vec![];
         let results: Arc<Mutex<Vec<(u32, &'static str, J, u64)>>> = Arc::new(Mutex::new(vec![]));
         // clients shared across the concurrent sends of one kind
@@ -230,7 +232,8 @@ impl Ctx {
         };
         for (rid, kind, target, cfg, pay, k) in sends.into_iter() {
             let (req, am) = req_msg(rid, k, &target);
-            built.insert(rid, (am, pay.clone(), cfg.clone(), target.clone()));
+            let _ = am;
+            built.insert(rid, (msg_json(&req), pay.clone(), cfg.clone(), target.clone()));
             let exp = expect_resp.get(&rid).cloned().unwrap_or_default();
             let results = results.clone();
             let sb = shared_b.clone();
@@ -308,7 +311,7 @@ impl Ctx {
             }
             let (am, pay, cfg, target) = match built.get(&rid) {
                 Some(x) => x.clone(),
-                None => (AMsg { ver: 0, code: 0, id: 0, groups: vec![] }, vec![], Cfg { headers: vec![], auth: None, timeout_ms: None }, String::new()),
+                None => (json!({"hdr": {"ver": 0, "code": 0, "id": [0, 0]}, "groups": []}), vec![], Cfg { headers: vec![], auth: None, timeout_ms: None }, String::new()),
             };
             let t = crate::uri::split_uri(&target);
             let exp_target = format!(
@@ -326,7 +329,7 @@ impl Ctx {
             let hm = header_map(&s.headers);
             let ev = json!({"ev": "srv", "rid": rid, "conn": s.conn, "method": s.method, "target": s.target, "exp_target": exp_target,
                 "hdr": hm, "exp_headers": exp_headers, "exp_host": exp_host, "body_ok": s.bad.is_none(), "body_framing": s.body_framing,
-                "term": tz.term, "toks": toks_json(&tz.toks), "hdr_ipp": hdr_json(tz.hdr), "msg": am.json(), "pay_ok": pay_ok,
+                "term": tz.term, "toks": toks_json(&tz.toks), "hdr_ipp": hdr_json(tz.hdr), "msg": am, "pay_ok": pay_ok,
                 "script": scripts.get(&rid).cloned().unwrap_or(json!({"framing": "?", "status": 0, "cut": false, "stall": false, "stall_ms": 0, "frag": 0, "resp": {"hdr": {}, "groups": []}}))});
             self.sink.emit(&ev, &side);
         }
@@ -337,7 +340,8 @@ impl Ctx {
                 self.samples.push(json!({"what": what, "rid": rid, "client": kind, "script": scripts.get(&rid).map(|s| json!({"framing": s["framing"], "status": s["status"], "cut": s["cut"], "stall": s["stall"]})), "ok": rj["ok"]}));
             }
             let tmo: i64 = built.get(&rid).and_then(|b| b.2.timeout_ms).map(|t| t as i64).unwrap_or(-1);
-            self.sink.emit(&json!({"ev": "ret", "rid": rid, "client": kind, "res": rj, "ms": ms, "timeout_ms": tmo}), &side);
+            let plan_stall = scripts.get(&rid).map(|s| s["stall"] == json!(true)).unwrap_or(false);
+            self.sink.emit(&json!({"ev": "ret", "rid": rid, "client": kind, "res": rj, "ms": ms, "timeout_ms": tmo, "plan_stall": plan_stall}), &side);
             self.n += 1;
         }
         self.sink.emit(&json!({"ev": "endx"}), &side);
@@ -401,11 +405,11 @@ pub fn run(a: &Args) {
             let id = next_rid();
             cx.exchange("timeout history: then 300 ms against a stalled server", vec![(id, kind, targets4[0].clone(), Cfg { timeout_ms: Some(300), ..cfgs[0].clone() }, vec![], 1)], vec![mk_plan(id, "length", 200, None, true, 0, 1, 3)], None, false);
             let id = next_rid();
-            cx.exchange("timeout history: 400 ms, quick server", vec![(id, kind, targets4[1].clone(), Cfg { timeout_ms: Some(400), ..cfgs[1].clone() }, vec![], 1)], vec![mk_plan(id, "chunked", 200, None, false, 0, 1, 3)], None, false);
+            cx.exchange("timeout history: 1.5 s, quick server", vec![(id, kind, targets4[1].clone(), Cfg { timeout_ms: Some(1500), ..cfgs[1].clone() }, vec![], 1)], vec![mk_plan(id, "chunked", 200, None, false, 0, 1, 3)], None, false);
             let id = next_rid();
             let mut slow = mk_plan(id, "chunked", 200, None, false, 0, 2, 0);
-            slow.script.frag = (slow.script.body.len() / 8).max(1);
-            slow.script.drip_ms = 110; // about 0.9 s in total: longer than 400 ms, far shorter than 9 s
+            slow.script.frag = (slow.script.body.len() / 20).max(1);
+            slow.script.drip_ms = 110; // about 2.2 s in total: longer than 1.5 s, far shorter than 9 s
             cx.exchange("timeout history: then 9 s against a slow but complete answer", vec![(id, kind, targets4[1].clone(), Cfg { timeout_ms: Some(9000), ..cfgs[1].clone() }, vec![], 2)], vec![slow], None, false);
             for t in [0u64, 1] {
                 let id = next_rid();
